@@ -2048,3 +2048,81 @@ pub(crate) fn h_grammar_versions() {
     }
     vrt_observe_u64(v as u64);
 }
+
+// ------------------------------------------------------------------ C15 / C01: many children, several new elements tied in the writer's order
+
+/// a module with 24 placed elements (MEASUREMENT / UNIT interleaved) gets 4 new MEASUREMENTs in one go: they are tied
+/// in the writer's comparison (same position id after sort_new_items, line 0, same tag), so their output order is the
+/// list order only as long as the writer's sort is stable. More than 20 children: std's unstable sort is no longer an
+/// insertion sort there.
+pub(crate) fn h_sort_new_many_children() {
+    let shape = vrt_choice(3);
+    let (pairs, news) = match shape { 0 => (12u8, 4u32), 1 => (9u8, 12u32), _ => (5u8, 16u32) };
+    let mut t = String::from("ASAP2_VERSION 1 71\n/begin PROJECT p \"\"\n  /begin MODULE m \"\"\n");
+    for i in 0..pairs {
+        t.push_str("    /begin MEASUREMENT ms");
+        t.push((b'a' + i) as char);
+        t.push_str(" \"\" UBYTE NO_COMPU_METHOD 0 0 0 255\n    /end MEASUREMENT\n    /begin UNIT un");
+        t.push((b'a' + i) as char);
+        t.push_str(" \"\" \"\" DERIVED\n    /end UNIT\n");
+    }
+    t.push_str("  /end MODULE\n/end PROJECT\n");
+    let (mut file, _) = load_from_string(&t, None, true).unwrap();
+    let first = vrt_choice(4);
+    for k in 0..news {
+        // insertion order is not alphabetical: rotated by `first`
+        let mut name = String::from("new_");
+        name.push((b'a' + ((first * 3 + k) % news) as u8) as char);
+        file.project.module[0].measurement.push(Measurement::new(name, String::new(), DataType::Ubyte, String::from("NO_COMPU_METHOD"), 0, 0.0, 0.0, 255.0));
+    }
+    let total = pairs as usize + news as usize;
+    file.sort_new_items();
+    let out1 = file.write_to_string();
+    // the new elements are written behind the last placed MEASUREMENT, in list order
+    let mut names: Vec<String> = Vec::new();
+    for line in out1.lines() {
+        if let Some((kind, name)) = tag_of(line) { if kind == "MEASUREMENT" { names.push(name); } }
+    }
+    vrt_check(names.len() == total, "C15 every MEASUREMENT is written");
+    if names.len() == total {
+        // sort_new_items orders the new elements of a kind by name inside the list; the writer must keep that order
+        let list = &file.project.module[0].measurement;
+        for k in 0..total {
+            vrt_check(names[k] == list[k].get_name(), "C15 elements are written in the order of the list (new elements placed in one call are tied in the writer's comparison)");
+        }
+        for k in (pairs as usize)..total {
+            vrt_check(names[k].starts_with("new_"), "C15 new elements are written behind the last placed element of their kind");
+        }
+    }
+    match load_from_string(&out1, None, true) {
+        Ok((file2, _)) => vrt_check(file2 == file, "C01 load(write(M)) == M for a model with several new elements of one kind"),
+        Err(_) => vrt_check(false, "C01 the written model loads again"),
+    }
+    for _ in 0..2 {
+        file.sort_new_items();
+        vrt_check(file.write_to_string() == out1, "C15 a further sort_new_items / write cycle does not reorder anything");
+    }
+    // two more insert / sort_new_items / write cycles: one new UNIT, then two new MEASUREMENTs
+    file.project.module[0].unit.push(Unit::new(String::from("new_unit"), String::new(), String::from("x"), UnitType::Derived));
+    file.sort_new_items();
+    let out2 = file.write_to_string();
+    file.project.module[0].measurement.push(Measurement::new(String::from("zz_1"), String::new(), DataType::Ubyte, String::from("NO_COMPU_METHOD"), 0, 0.0, 0.0, 255.0));
+    file.project.module[0].measurement.push(Measurement::new(String::from("zz_0"), String::new(), DataType::Ubyte, String::from("NO_COMPU_METHOD"), 0, 0.0, 0.0, 255.0));
+    file.sort_new_items();
+    let out3 = file.write_to_string();
+    for out in [&out2, &out3] {
+        let mut ms: Vec<String> = Vec::new();
+        for line in out.lines() {
+            if let Some((kind, name)) = tag_of(line) { if kind == "MEASUREMENT" { ms.push(name); } }
+        }
+        // elements that were already placed keep their relative output order: the first `total` MEASUREMENTs are the old ones
+        let mut same = ms.len() >= total;
+        if same { for k in 0..total { if ms[k] != names[k] { same = false; } } }
+        vrt_check(same, "C15 elements that were already placed keep their relative output order over further cycles");
+    }
+    match load_from_string(&out3, None, true) {
+        Ok((file3, _)) => vrt_check(file3 == file, "C01 load(write(M)) == M after several insert / sort_new_items cycles"),
+        Err(_) => vrt_check(false, "C01 the written model loads again after several cycles"),
+    }
+    vrt_cover(true, "sort_new_many_children_end");
+}
